@@ -98,6 +98,15 @@ def regen_consts():
     except consts.ConstError as ex:
         return False, str(ex), {}
     write_if_changed(os.path.join(COQ, "Generated", "Consts.v"), text)
+    # the second translator: samply/src/shared/context_switch.rs -> Generated/ContextSwitchGen.v (C12).  When the source can no longer be
+    # translated the previous file stays in place (so that everything else still builds) and the error is a broken obligation of C12.
+    import xlate_cs
+    try:
+        gen = xlate_cs.generate(open(os.path.join(REPO, "samply", "src", "shared", "context_switch.rs")).read())
+        write_if_changed(os.path.join(COQ, "Generated", "ContextSwitchGen.v"), gen)
+        values["context_switch_translation"] = "ok (%d lines)" % gen.count("\n")
+    except (xlate_cs.XlateError, OSError, IndexError, ValueError) as ex:
+        values.setdefault("_errors", {})["context_switch_translation"] = "samply/src/shared/context_switch.rs: %s" % ex
     return True, "", values
 
 
@@ -111,7 +120,8 @@ def coq_build(targets, timeout=1500):
             if rc != 0:
                 return False, out
         try:
-            rc, out = sh(["make", "-j%d" % NCPU] + targets, cwd=COQ, timeout=timeout)
+            # -k: a broken proof file must not keep the other targets (the tie in particular) from being built
+            rc, out = sh(["make", "-k", "-j%d" % NCPU] + targets, cwd=COQ, timeout=timeout)
         except subprocess.TimeoutExpired:
             return False, "coq build timed out"
         return rc == 0, out
